@@ -9,21 +9,27 @@
      D < T  : the body's own result, never TIMEOUT
      D > T  : TIMEOUT; teardown and plug tearDown still run; the executor
               proceeds at time T (bounded delay) even if the body never returns
-   D = T is a tie that may go either way and is not generated. *)
+   D = T is a tie that may go either way and is not generated.
+
+   L (linger): the phase thread stays alive for L more units after the body
+   returned and its outcome was stored (its finish handler is slow).  A body
+   that returned before the deadline keeps its own result even if its thread is
+   still alive at the deadline (D < T < D + L); the executor then proceeds at
+   the deadline. *)
 EXTENDS Integers, Sequences, FiniteSets, TLC
 
-CONSTANTS Ts, Ds, Poll, Inf, Results
+CONSTANTS Ts, Ds, Ls, Poll, Inf, Results
 
-VARIABLES T, D, res,      \* parameters of this run: timeout, duration, the body's own result
+VARIABLES T, D, L, res,   \* parameters of this run: timeout, duration, linger, the body's own result
           now,            \* virtual time
           phase,          \* "joining" "decided"
           outcome,        \* "" | "OWN" | "TIMEOUT"
           proceedAt,      \* time at which the executor moved on
           killed,
           polls           \* number of join() calls
-vars == <<T, D, res, now, phase, outcome, proceedAt, killed, polls>>
+vars == <<T, D, L, res, now, phase, outcome, proceedAt, killed, polls>>
 
-Init == /\ T \in Ts /\ D \in Ds /\ D # T /\ res \in Results
+Init == /\ T \in Ts /\ D \in Ds /\ D # T /\ res \in Results /\ L \in Ls /\ (D = Inf => L = 0) /\ D + L # T
         /\ now = 0 /\ phase = "joining" /\ outcome = "" /\ proceedAt = -1 /\ killed = FALSE /\ polls = 0
 
 Min(a, b) == IF a < b THEN a ELSE b
@@ -31,12 +37,13 @@ Min(a, b) == IF a < b THEN a ELSE b
 (* while time.monotonic() < deadline: self.join(min(poll, remaining)); stop when the thread ended *)
 Join ==
   /\ phase = "joining" /\ now < T
-  /\ LET wake == Min(now + Min(Poll, T - now), IF D = Inf THEN now + Poll + T ELSE (IF D > now THEN D ELSE now)) IN
+  /\ LET E == D + L      \* the thread ends at E; join() returns then, or when its timeout is over
+         wake == Min(now + Min(Poll, T - now), IF D = Inf THEN now + Poll + T ELSE (IF E > now THEN E ELSE now)) IN
      /\ now' = wake /\ polls' = polls + 1
-     /\ IF D # Inf /\ D <= wake
+     /\ IF D # Inf /\ E <= wake
         THEN phase' = "decided" /\ outcome' = "OWN" /\ proceedAt' = wake /\ UNCHANGED killed
         ELSE UNCHANGED <<phase, outcome, proceedAt, killed>>
-  /\ UNCHANGED <<T, D, res>>
+  /\ UNCHANGED <<T, D, L, res>>
 
 Expire ==
   /\ phase = "joining" /\ now >= T
@@ -45,7 +52,7 @@ Expire ==
      THEN outcome' = "OWN" /\ UNCHANGED killed
      ELSE outcome' = "TIMEOUT" /\ killed' = TRUE
   /\ proceedAt' = now
-  /\ UNCHANGED <<T, D, res, now, polls>>
+  /\ UNCHANGED <<T, D, L, res, now, polls>>
 
 Next == Join \/ Expire
 Spec == Init /\ [][Next]_vars
@@ -57,5 +64,5 @@ NoFalseTimeout == (Decided /\ D # Inf /\ D < T) => outcome = "OWN"
 TimeoutWhenOverdue == (Decided /\ (D = Inf \/ D > T)) => outcome = "TIMEOUT"
 (* "the executor proceeds within a bounded delay after the deadline even if the body never returns" *)
 BoundedDelay == Decided => proceedAt <= T
-Emit == Decided => PrintT(<<"ROW", [T |-> T, D |-> D, res |-> res, outcome |-> outcome, proceedAt |-> proceedAt]>>)
+Emit == Decided => PrintT(<<"ROW", [T |-> T, D |-> D, L |-> L, res |-> res, outcome |-> outcome, proceedAt |-> proceedAt]>>)
 ======================================================================
